@@ -180,6 +180,24 @@ fn judge<T: SwiftMessageBody + serde::Serialize>(rep: &mut Report, code: u32, pl
         let site = chunks.get(first).map(|c| c.tag.clone()).unwrap_or_else(|| "end".into());
         rep.fail(&format!("not_reproduced|MT{code}|{site}"), wit("to_mt_string differs from the text", json!({"output": out, "first_difference_at_field": first})));
     }
+    // the block model: `renderFrom` must give exactly what to_mt_string wrote, and for well-formed contents the model's
+    // successive extract_field calls must read every content back (theorem read_render, here on the real serialisation)
+    let wfc = |c: &str| -> bool {
+        let cs: Vec<char> = c.chars().collect();
+        for (i, &a) in cs.iter().enumerate() {
+            let next = cs.get(i + 1).copied();
+            if a == '\r' { return false; }
+            if a == '\n' && !matches!(next, Some(b) if b != ':' && b != '-') { return false; }
+            if a == '-' && next == Some('}') { return false; }
+        }
+        true
+    };
+    let wf_tag = |t: &str| -> bool { (2..=4).contains(&t.len()) && t.chars().all(|c| c.is_alphanumeric()) };
+    if chunks.iter().all(|c| wf_tag(&c.tag) && wfc(&c.content) && !c.content.is_empty()) && out.trim_end_matches('\n') == want {
+        let raw = m.to_mt_string();
+        let req = format!("render crlf {}", chunks.iter().map(|c| format!("{}:{}", c.tag, hex(&c.content))).collect::<Vec<_>>().join(" "));
+        rep.model(req, format!("{} wf=1 rb=1", hex(&raw)));
+    }
     // (3) component values
     let j = serde_json::to_value(&m).unwrap_or(Value::Null);
     let mut got: BTreeMap<(Vec<usize>, String), Vec<String>> = BTreeMap::new();
